@@ -373,6 +373,10 @@ static bool collect(const RCP<const Set> &s, bool under_real, std::vector<Elem> 
     }
     if (is_a<Complement>(*s)) {
         auto &c = down_cast<const Complement &>(*s);
+        if (is_a<Reals>(*c.get_container())) {
+            why = "minus-reals:the returned set subtracts the whole real line: " + s->__str__().substr(0, 100);
+            return false;
+        }
         std::vector<Elem> a, b, dummy;
         if (!collect(c.get_universe(), under_real, a, listed, why) || !collect(c.get_container(), false, b, dummy, why))
             return false;
@@ -408,7 +412,36 @@ static std::string cstr(cld z)
 
 // The oracle for one solution set: `N` numerator polynomial (non-zero, degree >= 1 after trimming or constant),
 // `D` the product of the denominators (poles), `real` the domain.
-static void check_solution(const RCP<const Set> &sol, const Poly &N, const Poly &D, bool real, std::string &oracle)
+// an element outside "rational or quadratic surd": cube roots, nested radicals (Cardano / Euler output)
+static bool radical_form(const RCP<const Basic> &e, int depth = 0)
+{
+    if (is_a<Pow>(*e)) {
+        auto &p = down_cast<const Pow &>(*e);
+        if (!is_a<Integer>(*p.get_exp())) {
+            if (!(is_a<Rational>(*p.get_exp()) && down_cast<const Rational &>(*p.get_exp()).get_den()->as_int() == 2))
+                return true;
+            if (!is_a_Number(*p.get_base()) || is_a<Complex>(*p.get_base()))
+                return true;
+        }
+    }
+    if (is_a<Mul>(*e)) {
+        for (auto &kv : down_cast<const Mul &>(*e).get_dict()) {
+            if (!is_a<Integer>(*kv.second)) {
+                if (!(is_a<Rational>(*kv.second) && down_cast<const Rational &>(*kv.second).get_den()->as_int() == 2))
+                    return true;
+                if (!is_a_Number(*kv.first) || is_a<Complex>(*kv.first))
+                    return true;
+            }
+        }
+    }
+    for (auto &a : e->get_args())
+        if (radical_form(a, depth + 1))
+            return true;
+    return false;
+}
+
+static void check_solution(const RCP<const Set> &sol, const Poly &N, const Poly &D, bool real, std::string &oracle,
+                           bool big_den = false)
 {
     if (N.empty()) { // identically zero: every point of the domain where defined; generator keeps D constant here
         bool ok = real ? is_a<Reals>(*sol) : is_a<UniversalSet>(*sol);
@@ -463,8 +496,8 @@ static void check_solution(const RCP<const Set> &sol, const Poly &N, const Poly 
                 matched = true;
         if (!matched) {
             if (D.size() > 1 && std::abs(ceval(dc, el.val)) <= 1e-7L * pscale(D, el.val))
-                oracle = "FAIL:pole-not-excluded:" + el.e->__str__().substr(0, 80) + " = " + cstr(el.val)
-                         + " is a zero of the denominator";
+                oracle = std::string("FAIL:pole-not-excluded") + (big_den ? "-cubic-denominator" : (radical_form(el.e) ? "-radical-form" : ""))
+                         + ":" + el.e->__str__().substr(0, 80) + " = " + cstr(el.val) + " is a zero of the denominator";
             else if (res > 1e-8L * sc)
                 oracle = "FAIL:spurious-root:" + el.e->__str__().substr(0, 80) + " = " + cstr(el.val)
                          + " residual " + tostr((double)(res / sc));
@@ -576,12 +609,15 @@ static std::string dump_elems_rat(const vec_basic &v, std::vector<Fr> &out, bool
 std::string hx_run(const std::string &op, std::string &oracle)
 {
     auto t = split(op, ' ');
+    while (!t.empty() && !t.back().empty() && t.back()[0] == '#')
+        t.pop_back(); // family flag of the generator (known-finding families), not part of the operation
     auto x = symbol("x");
     if (t[0] == "poly" || t[0] == "rat" || t[0] == "rat2") {
         bool real = t.at(1) == "R";
         auto dom = mk_dom(t[1]);
         Poly N, D;
         RCP<const Basic> f;
+        bool big_den = false;
         if (t[0] == "poly") {
             N = parse_poly(t.at(2));
             D = Poly{Fr(1)};
@@ -590,12 +626,14 @@ std::string hx_run(const std::string &op, std::string &oracle)
             Poly n1 = parse_poly(t.at(2)), d1 = parse_poly(t.at(3));
             N = n1;
             D = d1;
+            big_den = d1.size() > 3;
             f = div(mk_poly(n1, x), mk_poly(d1, x));
         } else {
             Poly n1 = parse_poly(t.at(2)), d1 = parse_poly(t.at(3)), n2 = parse_poly(t.at(4)),
                  d2 = parse_poly(t.at(5));
             N = padd(pmul(n1, d2), pmul(n2, d1));
             D = pmul(d1, d2);
+            big_den = d1.size() > 3 || d2.size() > 3;
             f = add(div(mk_poly(n1, x), mk_poly(d1, x)), div(mk_poly(n2, x), mk_poly(d2, x)));
         }
         if (D.empty())
@@ -606,7 +644,14 @@ std::string hx_run(const std::string &op, std::string &oracle)
         // auxiliary certificate: complex solution of the numerator polynomial
         RCP<const Set> aux = solve(mk_poly(N, x), x, universalset());
         out += " @ " + vsexp::dump(*aux);
-        check_solution(sol, N, D, real, oracle);
+        check_solution(sol, N, D, real, oracle, big_den);
+        {
+            bool rad = false;
+            if (is_a<FiniteSet>(*aux))
+                for (auto &e : down_cast<const FiniteSet &>(*aux).get_container())
+                    rad = rad || radical_form(e);
+            stat(rad ? "certificate:numeric(radical-form elements)" : "certificate:exact(sqrt-of-rational elements)");
+        }
         if (oracle == "ok" && (t[0] != "poly" || real)) {
             std::string o2 = "ok";
             check_solution(aux, N, Poly{Fr(1)}, false, o2);
@@ -637,7 +682,48 @@ std::string hx_run(const std::string &op, std::string &oracle)
         vec_sym syms;
         for (unsigned j = 0; j < n; j++)
             syms.push_back(symbol("x" + tostr(j)));
+        // exact determinant (own elimination): a singular system has no unique solution, the library must refuse
+        bool singular = false;
+        {
+            std::vector<std::vector<Fr>> M = A;
+            for (unsigned c = 0; c < n && !singular; c++) {
+                unsigned p = c;
+                while (p < n && M[p][c].zero())
+                    p++;
+                if (p == n) {
+                    singular = true;
+                    break;
+                }
+                std::swap(M[p], M[c]);
+                for (unsigned k = c + 1; k < n; k++) {
+                    Fr f = M[k][c] / M[c][c];
+                    for (unsigned j = c; j < n; j++)
+                        M[k][j] = M[k][j] - f * M[c][j];
+                }
+            }
+        }
         vec_basic res;
+        if (singular) {
+            stat("lin:singular");
+            try {
+                if (t[0] != "lin")
+                    throw std::runtime_error("singular systems are only generated in matrix form");
+                DenseMatrix M(n, n + 1);
+                for (unsigned i = 0; i < n; i++) {
+                    for (unsigned j = 0; j < n; j++)
+                        M.set(i, j, mk_num(A[i][j]));
+                    M.set(i, n, mk_num(b[i]));
+                }
+                res = linsolve(M, syms);
+            } catch (SymEngineException &e) {
+                return exc_name(e);
+            }
+            std::vector<Fr> xs0;
+            bool ar;
+            std::string o = dump_elems_rat(res, xs0, ar);
+            oracle = "FAIL:lin-singular-returned:a singular system got the answer " + o.substr(0, 100);
+            return o;
+        }
         if (t[0] == "lin") {
             DenseMatrix M(n, n + 1);
             for (unsigned i = 0; i < n; i++) {
@@ -886,40 +972,110 @@ void hx_gen(Rng &r, const std::string &tier)
         emit("poly " + dom + " " + poly_str(p), tag);
     }
     // --- rational equations
+    // Denominators are passed with degree <= 2 (their roots come back as rationals / quadratic surds); over the
+    // reals all denominator roots are numbers (rational or Gaussian rational), because Reals.contains(sqrt(2))
+    // stays symbolic and Intersection::set_complement mishandles such sets (docs/C30.md, finding F7).
+    auto gen_den = [&](int deg, bool numbers_only) {
+        std::string t1;
+        if (!numbers_only)
+            return gen_from_roots(r, deg, t1);
+        Poly p{Fr(1)};
+        int left = deg;
+        while (left > 0) {
+            if (left >= 2 && r.coin(1, 3)) {
+                p = pmul(p, quad_factor(rnd_rat(r, 3, 2), rnd_nz(r, 3, 2), -1));
+                left -= 2;
+            } else {
+                p = pmul(p, lin_factor(rnd_rat(r, 5, 3)));
+                left -= 1;
+            }
+        }
+        return p;
+    };
+    // F8 (docs/C30.md): a pole is recognised only if numerator and denominator return it as the *same* expression;
+    // a numerator of degree >= 3 (Cardano / Euler form) sharing a root with a denominator, or a denominator of degree
+    // >= 3, is flagged `#F8`.  Decided here with exact polynomial arithmetic, not by running the library.
+    auto emit_rat = [&](const std::string &opname, const std::string &dom, const std::vector<Poly> &ps,
+                        const std::string &tag) {
+        Poly N, D;
+        bool bigden = false;
+        if (ps.size() == 2) {
+            N = ps[0];
+            D = ps[1];
+            bigden = ps[1].size() > 3;
+        } else {
+            N = padd(pmul(ps[0], ps[3]), pmul(ps[2], ps[1]));
+            D = pmul(ps[1], ps[3]);
+            bigden = ps[1].size() > 3 || ps[3].size() > 3;
+        }
+        if (N.empty() || N.size() > 5 || D.empty())
+            return;
+        bool shared = pgcd(N, D).size() > 1;
+        std::string line = opname + " " + dom;
+        for (auto &p : ps)
+            line += " " + poly_str(p);
+        if (bigden || (shared && N.size() > 3))
+            emit(line + " #F8", "known:F8-" + tag);
+        else
+            emit(line, tag);
+    };
     for (int i = 0; i < n_rat; i++) {
         std::string dom = dom_of(r), tag, t1;
-        int kind = (int)r.below(10);
-        if (kind < 5) {
-            // n1/d1 with common factors
-            int dn = (int)r.range(1, 3), dd = (int)r.range(1, 2);
-            Poly n1 = gen_from_roots(r, dn, t1), d1 = gen_from_roots(r, dd, t1);
+        bool real = dom == "R";
+        int kind = (int)r.below(20);
+        auto monomial = [](const Poly &p) {
+            int nz = 0;
+            for (auto &c : p)
+                if (!c.zero())
+                    nz++;
+            return nz == 1 && p.size() > 1;
+        };
+        if (kind < 9) {
+            // n1/d1, often with a common factor
+            int dn = (int)r.range(1, 3);
+            Poly n1 = gen_from_roots(r, dn, t1), d1 = gen_den(1, real);
             int common = 0;
             if (r.coin(2, 3)) {
-                Poly cf = r.coin(3, 4) ? lin_factor(rnd_rat(r, 4, 3)) : quad_factor(rnd_rat(r, 2, 2), rnd_nz(r, 2, 2), pick_d(r));
+                Poly cf = lin_factor(rnd_rat(r, 4, 3));
                 if (n1.size() + cf.size() - 2 <= 4) {
                     n1 = pmul(n1, cf);
                     d1 = pmul(d1, cf);
                     common = 1;
                 }
             }
-            emit("rat " + dom + " " + poly_str(n1) + " " + poly_str(d1), common ? "rat:common-factor" : "rat:coprime");
-        } else {
+            // x^k / x^j is simplified by the Mul constructor before solve sees it
+            if (monomial(d1) && (n1.empty() || n1[0].zero()))
+                continue;
+            emit_rat("rat", dom, {n1, d1}, common ? "rat:common-factor" : "rat:coprime");
+        } else if (kind < 18) {
             // n1/d1 + n2/d2, numerator degree <= 4
-            Poly d1 = gen_from_roots(r, (int)r.range(1, 2), t1);
-            Poly d2 = r.coin(1, 3) ? Poly{Fr(1)} : gen_from_roots(r, (int)r.range(1, 2), t1);
+            Poly d1 = gen_den((int)r.range(1, 2), real);
+            Poly d2 = r.coin(1, 3) ? Poly{Fr(1)} : gen_den((int)r.range(1, 2), real);
             Poly n1 = gen_from_roots(r, (int)r.range(0, 2), t1), n2 = gen_from_roots(r, (int)r.range(0, 2), t1);
-            if (r.coin(1, 3)) {
-                // force a cancelling pole: both fractions share a denominator root and the numerators cancel there
+            if (r.coin(1, 3) && d1.size() <= 2) {
+                // a removable singularity: numerator and denominator of the first fraction share a root
                 Fr a = rnd_rat(r, 3, 2);
                 d1 = pmul(d1, lin_factor(a));
                 n1 = pmul(n1, lin_factor(a));
                 tag = "rat2:pole-cancelled";
             } else
                 tag = d2.size() == 1 ? "rat2:poly-plus-fraction" : "rat2:two-fractions";
-            Poly N = padd(pmul(n1, d2), pmul(n2, d1));
-            if (N.empty() || N.size() > 5 || d1.size() > 4)
+            if ((monomial(d1) && (n1.empty() || n1[0].zero())) || (monomial(d2) && (n2.empty() || n2[0].zero())))
                 continue;
-            emit("rat2 " + dom + " " + poly_str(n1) + " " + poly_str(d1) + " " + poly_str(n2) + " " + poly_str(d2), tag);
+            emit_rat("rat2", dom, {n1, d1, n2, d2}, tag);
+        } else if (kind == 18) {
+            // F8: a cubic denominator returns its roots in Cardano form, the pole is not recognised
+            Fr a = rnd_rat(r, 3, 1);
+            Poly d1 = pmul(pmul(lin_factor(a), lin_factor(a + Fr(1))), lin_factor(a - Fr(2)));
+            Poly n1 = pmul(lin_factor(a), lin_factor(rnd_rat(r, 5, 2)));
+            emit_rat("rat", "C", {n1, d1}, "rat:cubic-denominator");
+        } else {
+            // F7: irrational real pole candidates over the reals (Intersection::set_complement)
+            Poly d1 = quad_factor(Fr(0), Fr(1), r.coin() ? 2 : 3);
+            Poly n1 = lin_factor(rnd_rat(r, 4, 2));
+            Poly n2{rnd_nz(r, 3, 1)}, d2 = lin_factor(rnd_rat(r, 3, 1));
+            emit("rat2 R " + poly_str(n1) + " " + poly_str(d1) + " " + poly_str(n2) + " " + poly_str(d2) + " #F7",
+                 "known:F7-rat-real-irrational-pole");
         }
     }
     // --- linear systems with a unique solution (determinant checked here, exactly)
@@ -938,6 +1094,13 @@ void hx_gen(Rng &r, const std::string &tier)
                 else
                     A[a][b] = (a + b == n - 1) ? rnd_nz(r, 4, 2) : (r.coin(1, 4) ? rnd_rat(r, 3, 2) : Fr(0)); // anti-diagonal
             }
+        if (n >= 2 && r.coin(1, 12)) {
+            // rank deficient: one row is a multiple of another
+            unsigned a = (unsigned)r.below(n), b = (a + 1 + (unsigned)r.below(n - 1)) % n;
+            Fr f = rnd_rat(r, 3, 2);
+            for (unsigned j = 0; j < n; j++)
+                A[b][j] = A[a][j] * f;
+        }
         // exact determinant by Gaussian elimination on a copy
         std::vector<std::vector<Fr>> M = A;
         bool singular = false;
@@ -956,8 +1119,6 @@ void hx_gen(Rng &r, const std::string &tier)
                     M[k][j] = M[k][j] - f * M[c][j];
             }
         }
-        if (singular)
-            continue;
         std::vector<std::string> rows, bs;
         for (unsigned a = 0; a < n; a++) {
             std::vector<std::string> es;
@@ -967,7 +1128,11 @@ void hx_gen(Rng &r, const std::string &tier)
             bs.push_back((fam == 2 ? rnd_rat(r, 6, 3) : Fr(r.range(-6, 6))).str());
         }
         static const char *fams[] = {"dense-int", "sparse-int", "rational", "antidiagonal"};
-        bool eqform = r.coin(1, 3);
+        bool eqform = r.coin(1, 3) && !singular;
+        if (singular) {
+            emit("lin " + tostr(n) + " " + join(rows, ";") + " " + join(bs, ","), "lin:singular");
+            continue;
+        }
         emit(std::string(eqform ? "lineq " : "lin ") + tostr(n) + " " + join(rows, ";") + " " + join(bs, ","),
              std::string(eqform ? "lineq:" : "lin:") + fams[fam]);
     }
